@@ -460,7 +460,7 @@ class Lock(Stream):
     rule = ('the same history on both backends: random histories (depth 6-30; add/delete node, add link, update/unset '
             'node and link properties singly and in bulk, whole-graph update, listings, existence/uniqueness, matching, '
             'merging, delete graph, import, clone) over 3 graph ids x 5 node ids x 2-3 classes x 2 relations x 3 property '
-            'names, merge scenarios; non-trivial = >=4 state-changing steps and the three-way comparison alive for >=4 steps; '
+            'names, merge scenarios, emptying scenarios (graph_exists / listings asked repeatedly around delete-to-empty, merge-to-empty, delete through the importer); graph objects are LONG-LIVED (one primary and one secondary handle per graph id for the whole history, every 5th step through the secondary / the importer); non-trivial = >=4 state-changing steps and the three-way comparison alive for >=4 steps; '
             'distinct by (history, observations)')
 
     W = {'import': 4, 'import_direct': 1, 'clone': 2, 'merge': 2, 'del_graph': 2}
@@ -472,6 +472,8 @@ class Lock(Stream):
             r = rng.random()
             if r < 0.1:
                 out.append(sc.merge_scenario(rng, extra=rng.randrange(0, 6)))
+            elif r < 0.2:
+                out.append(sc.emptying_scenario(rng, extra=rng.randrange(0, 6)))
             elif r < 0.75:
                 # inside the reference model's scope for long: no merge, no identity rewriting, well-formed imports
                 out.append(sc.gen_history(rng, rng.choice([6, 10, 15, 20, 30]), weights=dict(self.W, merge=0),
